@@ -1,12 +1,24 @@
 import GceTcb.Base.Line
 import GceTcb.Model.Argv
 import GceTcb.Model.ArgvTrees
+import GceTcb.Drive.EndorseCli
+import GceTcb.Drive.C12Cli
 /-
 Driver handler for `argv` lines (stream argv): one argv through `Argv.runTool` on one of the trees of
 Model/ArgvTrees.lean, or the tree itself.
 
   op=tree tree=<rp|rs|np>                the tree with cobra's built-in commands, rows sorted
   op=run  tree=<t> a=<hex>,<hex>,…       argv words as UTF-8 bytes in hex (`_` = the empty word)
+
+  op=endorse tree=<ap> a=<hex>,… unums=<hex text>@<n|E>;… inums=<hex text>@<n|E>;… + the environment fields of a `cli
+             op=run` line (Drive/EndorseCli.lean; `uefi=` is where the image file IS, not what argv says)
+             the whole `endorse` command from raw argv: runTool, endorseFlagsOf, EndorseCli.cliRun
+             → tok=<run|help|err|other> phase=… cls=… req=… res=… eff=…  (as `cli op=run`)
+  op=key  ca= km= seq= instr= lines=<as c12cli op=hist> av=<argv of line 1>;<argv of line 2>;…  (words hex, `_` empty)
+             histories of bootstrap / rotate / wipeout command lines given as ARGV: runTool npTree, keyFlagsOf,
+             KeyCli.cliStep; the flag columns of `lines=` are what the generator says the argv means and are compared
+             with keyFlagsOf (`spec=differs` is printed when they differ); environment columns are used as they are
+             → as c12cli op=hist
 
 result of run:  res=run cmd=<a/b> occs=<name:hex[!],…> pos=<hex,…> hooks=</,/a,/a/b>
                 res=help cmd= occs= pos=        res=err:<tag> [cmd=] occs=
@@ -64,7 +76,102 @@ def showTree (T : Tree) : String :=
   "traverse=" ++ toString T.traverse ++ " runhooks=" ++ toString T.runHooks ++ " " ++
     ";".intercalate ((T.full.cmds.map showCmd).toArray.qsort (· < ·)).toList
 
+/-! ### op=endorse -/
+
+def unhexS (s : String) : String :=
+  if s == "_" then "" else
+  match hexDecode s with
+  | some b => (String.fromUTF8? (ByteArray.mk b.toArray)).getD "?"
+  | none => "?"
+
+/-- `<hex text>@<integer | E>` separated by `;` -/
+def numTable (s : String) : List (String × Option Int) :=
+  if s == "" then [] else
+  (s.splitOn ";").filterMap fun e =>
+    match e.splitOn "@" with
+    | [k, v] => some (unhexS k, if v == "E" then none else v.toInt?)
+    | _ => none
+
+/-- strconv.ParseUint / ParseInt(·, 0, n) as computed by the harness for every numeral text of the argv; the CSV
+    reader on texts without quotes and line breaks (the generator draws no others). -/
+def mkNumerals (f : Fields) : Numerals :=
+  let ut := numTable (f.get "unums")
+  let it := numTable (f.get "inums")
+  { uint := fun s => ((ut.find? (fun e => e.1 == s)).bind (·.2)).map Int.toNat
+    int := fun s => (it.find? (fun e => e.1 == s)).bind (·.2)
+    csv := fun s => if s == "" then some [] else some (s.splitOn ",") }
+
+open GceTcb.Endorse GceTcb.Commit GceTcb.VF GceTcb.Drive.IO GceTcb.EndorseCli GceTcb.Drive.EndorseCli in
+def handleEndorse (T : Tree) (f : Fields) : String :=
+  let argv := (f.list "a").map decodeWord
+  match endorseOfArgv T (mkNumerals f) argv with
+  | .usage => "tok=help phase=run cls=- req=- res=ok eff="
+  | .other c => "tok=other:" ++ showPath c
+  | .refused _ => "tok=err phase=parse cls=- req=- res=err eff="
+  | .flags fl _ =>
+    let P := mkParams f
+    let Pr := mkPrims f
+    let E := mkEnv f
+    match ecOf P Pr.parseUuid E fl with
+    | .err e =>
+      let p := phaseOf e
+      let tk := if p.1 == "parse" then "err" else "run"   -- a refusing Set of a repository flag type is a parse error too
+      s!"tok={tk} phase={p.1} cls={p.2} req=- res=err eff="
+    | .panic _ => "tok=run phase=panic cls=- req=- res=panic eff="
+    | .ok (ec, ow) =>
+      let r := cliRun P Pr genTables E fl (parseKeys f) (C15.parseVcs (f.get "vcs")) (C15.parseVcss (f.get "vcss"))
+      let res := match r.result with | .ok _ => "ok" | .err _ => "err" | .panic _ => "panic"
+      s!"tok=run phase=run cls=- req=[{showEC ec ow}] res={res} eff={",".intercalate (r.effects.map C15.showEff)}"
+
+/-! ### op=key -/
+
+open GceTcb.KeyCli GceTcb.KeyHistory GceTcb.Drive.C12Cli in
+def sameFlags (a b : KeyCli.CliFlags) : Bool :=
+  a.sub == b.sub && a.rootKeyCn == b.rootKeyCn && a.signingKeyCn == b.signingKeyCn && a.rootKeySerial == b.rootKeySerial &&
+  a.initialSigningKeySerial == b.initialSigningKeySerial && a.rotatedKeySerialOverride == b.rotatedKeySerialOverride &&
+  a.timestamp == b.timestamp && a.forceProdWipeout == b.forceProdWipeout && a.overwrite == b.overwrite &&
+  a.keepGoing == b.keepGoing && a.args == b.args && a.keyDir == b.keyDir && a.bucketRoot == b.bucketRoot &&
+  a.bucket == b.bucket && a.certDir == b.certDir && a.rootPath == b.rootPath
+
+/-- the fields a sub-command does not register are not part of what its argv can say -/
+def normFlags (a : KeyCli.CliFlags) : KeyCli.CliFlags :=
+  match a.sub with
+  | .bootstrap => { a with rotatedKeySerialOverride := [], forceProdWipeout := false }
+  | .rotate => { a with rootKeyCn := "GCE-cc-tcb-root", rootKeySerial := [], initialSigningKeySerial := [], forceProdWipeout := false }
+  | .wipeout => { a with rootKeyCn := "GCE-cc-tcb-root", signingKeyCn := "GCE-uefi-signer", rootKeySerial := [],
+                         initialSigningKeySerial := [], rotatedKeySerialOverride := [], timestamp := [] }
+
+open GceTcb.KeyCli GceTcb.KeyHistory GceTcb.Drive.C12Cli in
+def handleKey (f : Fields) : String :=
+  let W : Wiring := ⟨if f.get "ca" == "memca" then .memca else .gcsca,
+                     if f.get "km" == "localkm" then .localkm else .memkm, f.bool "seq", true⟩
+  let raw := if f.get "lines" == "" then [] else (f.get "lines").splitOn ";"
+  let avs := if f.get "av" == "" then [] else (f.get "av").splitOn ";"
+  let ls := raw.filterMap parseLine
+  if ls.length ≠ raw.length || avs.length ≠ raw.length then "bad-op"
+  else
+    -- each line's flags are what tokenising its argv yields; an argv cobra / pflag refuse moves nothing
+    let tokd : List (Option Line × Bool) := (ls.zip avs).map fun la =>
+      let argv := ((la.2.splitOn ",").filter (· != "")).map decodeWord
+      match runTool npTree argv with
+      | .run c os pos _ =>
+        match subOf c with
+        | some sub =>
+          let fl := keyFlagsOf sub os pos
+          (some { la.1 with flags := fl }, sameFlags (normFlags fl) (normFlags la.1.flags))
+        | none => (none, true)
+      | _ => (none, true)
+    let spec := if tokd.all (·.2) then "" else "spec=differs "
+    let rec go (s : State) : List (Option Line × Bool) → String
+      | [] => s!"phase=- cls=- ctx=- {observe W.cfg s true}"
+      | [(some l, _)] => runLines W (f.bool "instr") s [l]
+      | [(none, _)] => s!"phase=parse cls=- ctx=- {observe W.cfg s false}"
+      | (some l, _) :: rest => go (cliStep W l.pt l.env s l.flags).1 rest
+      | (none, _) :: rest => go s rest
+    spec ++ go State.init tokd
+
 def handle (f : Fields) : String :=
+  if f.get "op" == "key" then handleKey f else
   match treeNamed (f.get "tree") with
   | none => "bad-tree"
   | some T =>
@@ -73,6 +180,7 @@ def handle (f : Fields) : String :=
     | "run" =>
       let argv := (f.list "a").map decodeWord
       showRes T.traverse (runTool T argv)
+    | "endorse" => handleEndorse T f
     | _ => "bad-op"
 
 end GceTcb.Drive.Argv
